@@ -11,6 +11,10 @@ namespace AIToolbox::Factored::MDP {
             transitions_({graph_, std::move(transitions)}), rewards_(std::move(rewards)),
             rand_(Seeder::getSeed())
     {
+        // Negated form so that NaN is rejected too.
+        if ( !(discount_ > 0.0 && discount_ <= 1.0) )
+            throw std::invalid_argument("Discount parameter must be in (0,1]");
+
         // Now we validate both the transition function and the rewards.
         // The DDN graph we can already trust since it's a class and not a
         // struct, but we can still check that all the nodes have been pushed.
@@ -161,6 +165,11 @@ namespace AIToolbox::Factored::MDP {
 
     const State & CooperativeModel::getS() const { return graph_.getS(); }
     const Action & CooperativeModel::getA() const { return graph_.getA(); }
+    void CooperativeModel::setDiscount(const double d) {
+        if ( !(d > 0.0 && d <= 1.0) ) throw std::invalid_argument("Discount parameter must be in (0,1]");
+        discount_ = d;
+    }
+
     double CooperativeModel::getDiscount() const { return discount_; }
     const DDN & CooperativeModel::getTransitionFunction() const { return transitions_; }
     const FactoredMatrix2D & CooperativeModel::getRewardFunction() const { return rewards_; }
